@@ -132,6 +132,9 @@ def main(argv=None):
     for i, j in enumerate(jobs):
         j["job_id"] = i
         j["prop"] = prop
+        if tier == "quick":
+            # a quick job normally takes seconds; a rare solver hang must not stall the whole check: cut it (inconclusive)
+            j["timeout"] = min(j.get("timeout", 300), 300)
     info = getattr(mod, "INFO", {})
     pool = Pool(a.nproc, job_timeout=info.get("job_timeout", 600 if tier == "quick" else 1800))
     results = pool.run(jobs)
